@@ -61,7 +61,7 @@ impl Check for C34 {
         (base, tape(8..24)).prop_map(|(t, tp)| TextCase { text: mutate_text_pub(&t, &mut Tape { data: &tp, pos: 0 }) }).boxed()
     }
     fn cases(&self, tier: Tier) -> u32 {
-        tier.pick(6000, 150000)
+        tier.pick(40000, 600000)
     }
     fn run(&self, c: &TextCase, st: &mut Stats) -> Verdict {
         st.eval(1);
@@ -172,7 +172,7 @@ impl Check for C30 {
             .boxed()
     }
     fn cases(&self, tier: Tier) -> u32 {
-        tier.pick(600, 20000)
+        tier.pick(1800, 40000)
     }
     fn run(&self, c: &CrashCase, st: &mut Stats) -> Verdict {
         let text = &c.text;
@@ -378,7 +378,7 @@ impl Check for C27 {
             .boxed()
     }
     fn cases(&self, tier: Tier) -> u32 {
-        tier.pick(1500, 40000)
+        tier.pick(4500, 80000)
     }
     fn fixed_cases(&self) -> Vec<FormatCase> {
         let mk = |text: &str, anywhere: bool| FormatCase { text: text.to_string(), empty_line_after_prod: true, prod_semicolon_on_nl: true, max_line_length: 100, tab_size: 4, comments_anywhere: anywhere };
@@ -605,7 +605,7 @@ impl Check for C28 {
             .boxed()
     }
     fn cases(&self, tier: Tier) -> u32 {
-        tier.pick(500, 15000)
+        tier.pick(3000, 40000)
     }
     fn run(&self, c: &RenameCase, st: &mut Stats) -> Verdict {
         let t = &c.text;
@@ -788,7 +788,7 @@ impl Check for C29 {
             .boxed()
     }
     fn cases(&self, tier: Tier) -> u32 {
-        tier.pick(400, 10000)
+        tier.pick(2400, 30000)
     }
     fn run(&self, c: &HistoryCase, st: &mut Stats) -> Verdict {
         let n = c.versions.len();
